@@ -725,3 +725,122 @@ def inside_traversal(fn, host=None, at=None):
         problems.append(f"the outer traversal entered {len(seen)} and left {len(left)} of {n} nodes "
                         f"(returned {ret!r})")
     return out.get("enter"), out.get("leave"), (problems[0] if problems else None)
+
+
+# ------------------------------------------------------------------ custom column names (round 12)
+RENAMED_STATS = {"operations_compared_under_custom_column_names": 0}
+STD_KEYS = ("id", "type", "x", "y", "z", "r", "pid")
+
+
+def custom_names(level: int = 0):
+    """Column names other than the defaults (the library's ``names=`` / SWCNames mechanism):
+    level 0 renames the geometry / type columns only, level 1 every column."""
+    from swcgeom.core.swc_utils import SWCNames
+
+    if level < 0:
+        return SWCNames()
+    if level == 0:
+        return SWCNames(type="T", x="X", y="Y", z="Z", r="R")
+    return SWCNames(id="n", type="T", x="X", y="Y", z="Z", r="R", pid="parent")
+
+
+def renamed(tree, level: int = 0):
+    """The same tree (same values, same extra columns, comments, source) held under custom column
+    names."""
+    from swcgeom.core import Tree
+
+    nm, old = custom_names(level), tree.names
+    kw = {getattr(nm, k): np.array(tree.get_ndata(getattr(old, k))) for k in STD_KEYS}
+    for k in tree.keys():
+        if k not in old.cols():
+            kw[k] = np.array(tree.get_ndata(k))
+    return Tree(tree.number_of_nodes(), names=nm, source=tree.source,
+                comments=list(tree.comments), **kw)
+
+
+def plain_columns(tree) -> dict:
+    """Standard-key view of any tree's columns (through its own names) plus its extra columns;
+    raises ValueError if the tree carries stray columns under the *default* names although its
+    own names differ (a half-renamed result)."""
+    nm = tree.names
+    out = {k: np.asarray(tree.get_ndata(getattr(nm, k))) for k in STD_KEYS}
+    for k in tree.keys():
+        if k in nm.cols():
+            continue
+        if k in STD_KEYS:
+            raise ValueError(f"the result has a stray column {k!r} next to its own {getattr(nm, k)!r}")
+        out["extra:" + k] = np.asarray(tree.get_ndata(k))
+    return out
+
+
+def _same(a, b, path="result"):
+    from swcgeom.core.swc import SWCLike
+
+    if isinstance(a, SWCLike) or isinstance(b, SWCLike):
+        if not (isinstance(a, SWCLike) and isinstance(b, SWCLike)):
+            return f"{path}: {type(a).__name__} with default names, {type(b).__name__} with custom names"
+        try:
+            ca, cb = plain_columns(a), plain_columns(b)
+        except ValueError as e:
+            return f"{path}: {e}"
+        if sorted(ca) != sorted(cb):
+            return f"{path}: columns {sorted(cb)} instead of {sorted(ca)}"
+        for k in ca:
+            if ca[k].shape != cb[k].shape or not np.array_equal(ca[k], cb[k], equal_nan=ca[k].dtype.kind == "f"):
+                return f"{path}: column {k!r} differs"
+        return None
+    if isinstance(a, np.ndarray) or isinstance(b, np.ndarray):
+        a_, b_ = np.asarray(a), np.asarray(b)
+        if a_.shape != b_.shape:
+            return f"{path}: shape {b_.shape} instead of {a_.shape}"
+        ok = np.array_equal(a_, b_, equal_nan=True) if a_.dtype.kind not in "fc" else \
+            np.allclose(a_, b_, rtol=1e-6, atol=0, equal_nan=True)
+        return None if ok else f"{path}: values differ"
+    if isinstance(a, (list, tuple)) and isinstance(b, (list, tuple)):
+        if len(a) != len(b):
+            return f"{path}: {len(b)} items instead of {len(a)}"
+        for i, (x, y) in enumerate(zip(a, b)):
+            r = _same(x, y, f"{path}[{i}]")
+            if r:
+                return r
+        return None
+    if isinstance(a, dict) and isinstance(b, dict):
+        if sorted(a) != sorted(b):
+            return f"{path}: keys differ"
+        for k in a:
+            r = _same(a[k], b[k], f"{path}[{k!r}]")
+            if r:
+                return r
+        return None
+    if isinstance(a, (float, np.floating)) or isinstance(b, (float, np.floating)):
+        fa, fb = float(a), float(b)
+        ok = (fa != fa and fb != fb) or abs(fa - fb) <= 1e-6 * max(abs(fa), abs(fb))
+        return None if ok else f"{path}: {fb!r} instead of {fa!r}"
+    return None if a == b else f"{path}: {b!r} instead of {a!r}"
+
+
+def same_under_renaming(op, *trees, level: int = 0):
+    """Differential oracle for the ``names=`` mechanism: ``op`` on the given (default-named) trees
+    and on twins holding the same values under custom column names must agree -- result trees
+    column by column (read through their own names, which must be the twins' names), numbers to
+    1e-6.  Returns None, or a description of the disagreement.  The default-named run is the one
+    the check's own oracle decides; if it raises, nothing is compared."""
+    try:
+        # (both sides are rebuilt through the constructor, which casts to the library's column
+        # dtypes: the comparison is between two trees that differ in their column names only)
+        ref = op(*[renamed(t, -1) for t in trees])
+    except Exception:
+        return None
+    twins = [renamed(t, level) for t in trees]
+    RENAMED_STATS["operations_compared_under_custom_column_names"] += 1
+    try:
+        got = op(*twins)
+    except Exception as e:
+        return f"raised {type(e).__name__}: {str(e)[:100]} on trees with custom column names " \
+               f"{tuple(custom_names(level))}"
+    from swcgeom.core.swc import SWCLike
+
+    if isinstance(got, SWCLike) and tuple(got.names) != tuple(twins[0].names):
+        return f"result carries column names {tuple(got.names)}, the input had {tuple(twins[0].names)}"
+    r = _same(ref, got)
+    return None if r is None else f"with custom column names {tuple(custom_names(level))}: {r}"
